@@ -89,3 +89,40 @@ pub fn vx_iter_fold<T, B, F: FnMut(B, &T) -> B>(v: &Vec<T>, init: B, f: F) -> (r
     ensures exists|accs: Seq<B>| #![trigger accs.len()] accs.len() == v@.len() + 1 && accs[0] == init && r == accs[v@.len() as int]
         && (forall|j: int| 0 <= j < v@.len() ==> f.ensures((#[trigger] accs[j], &v@[j]), accs[j + 1])),
 { unimplemented!() }
+
+// ---- slice::Iter::filter(pred).collect::<Vec<&T>>() ----
+/// the elements of s whose flag in bs is set, in order (same recursion as vstd's Seq::filter)
+pub open spec fn vx_filter_by<T>(s: Seq<T>, bs: Seq<bool>) -> Seq<T>
+    decreases s.len()
+{
+    if s.len() == 0 || bs.len() != s.len() { Seq::<T>::empty() } else {
+        let sub = vx_filter_by(s.drop_last(), bs.drop_last());
+        if bs.last() { sub.push(s.last()) } else { sub }
+    }
+}
+/// `v.iter().filter(p).collect()`: p is asked once about every element (answers `bs`), the result holds
+/// references to exactly the elements it accepted, in order
+#[verifier::external_body]
+pub fn vx_iter_filter_collect<'a, T, P: FnMut(&&'a T) -> bool>(v: &'a Vec<T>, p: P) -> (r: Vec<&'a T>)
+    requires forall|x: &&'a T| p.requires((x,)),
+    ensures exists|bs: Seq<bool>| #![trigger bs.len()] bs.len() == v@.len()
+        && (forall|j: int| 0 <= j < v@.len() ==> p.ensures((&&#[trigger] v@[j],), bs[j]))
+        && r@.map_values(|x: &T| *x) == vx_filter_by(v@, bs),
+{ unimplemented!() }
+/// vx_filter_by with flags that agree with a predicate is Seq::filter by that predicate
+pub proof fn lemma_filter_by_is_filter<T>(s: Seq<T>, bs: Seq<bool>, pred: spec_fn(T) -> bool)
+    requires bs.len() == s.len(), forall|j: int| 0 <= j < s.len() ==> #[trigger] bs[j] == pred(s[j]),
+    ensures vx_filter_by(s, bs) == s.filter(pred),
+    decreases s.len()
+{
+    reveal(Seq::filter);
+    if s.len() > 0 {
+        assert forall|j: int| 0 <= j < s.drop_last().len() implies #[trigger] bs.drop_last()[j] == pred(s.drop_last()[j]) by {
+            assert(bs.drop_last()[j] == bs[j]);
+            assert(s.drop_last()[j] == s[j]);
+        }
+        lemma_filter_by_is_filter(s.drop_last(), bs.drop_last(), pred);
+    } else {
+        assert(s.filter(pred) =~= Seq::<T>::empty());
+    }
+}
